@@ -1037,6 +1037,33 @@ pub async fn bankruptcy(w: &mut World, m: &mut Mon, r: &mut R, lev: &Lev, g: usi
     let admin = clone_kp(&w.groups[g].admin);
     let i = w.ix_bankruptcy(lev.acct, db, admin.pubkey());
     let _ = w.exec(m, &[i], &[&admin]).await;
+    // the owner moves the bankrupt account to a new address (both variants): it stays disabled
+    if w.acct(lev.acct).account_flags & ACCOUNT_DISABLED != 0 && r.gen_bool(0.6) {
+        let auth = w.auth_of(lev.acct);
+        let p = w.chain.payer.pubkey();
+        let gk = w.groups[g].key;
+        let fw = w.fee_wallet.pubkey();
+        let old = w.accts[lev.acct].key;
+        let (o, newk) = if r.gen_bool(0.5) {
+            let nk = w.next_kp();
+            let i = ix::transfer_account(gk, old, nk.pubkey(), auth.pubkey(), p, auth.pubkey(), fw);
+            (w.exec(m, &[i], &[&auth, &nk]).await, nk.pubkey())
+        } else {
+            let idx = (w.accts.len() % 60_000) as u16;
+            let (i, k) = ix::transfer_account_pda(gk, old, auth.pubkey(), p, auth.pubkey(), fw, idx, None);
+            (w.exec(m, &[i], &[&auth]).await, k)
+        };
+        m.r.count(if o.ok() { "scen.bankrupt_account_moved" } else { "scen.bankrupt_account_move_refused" });
+        if o.ok() {
+            let user = w.accts[lev.acct].user;
+            w.accts.push(AcctD { key: newk, group: g, user });
+            let na = w.accts.len() - 1;
+            // whatever it holds, it cannot act
+            let i = w.ix_deposit(na, lev.ca, auth.pubkey(), w.ta_of(na, lev.ca), 1000, None);
+            let od = w.exec(m, &[i], &[&auth]).await;
+            m.r.count(if od.ok() { "scen.moved_bankrupt_account_deposit_accepted" } else { "scen.moved_bankrupt_account_deposit_refused" });
+        }
+    }
     // restore a sane collateral price for later scenarios
     match saved {
         SavedPx::None => scale_price_any(w, lev.ca, 1e9).await,
